@@ -101,6 +101,43 @@ def run(ctx):
         elif "ok " + hx(out) != m:
             pvlib.report_violation(ctx, "corr:tools.utf8b64", {"ops": [f"tools.utf8b64 {hx(d64)}"], "impl": hx(out), "model": m}, no_input=True,
                                    summary="remove_invalid_utf8_base64 model/impl differ")
+        # ---- remove_invalid_utf8_base64 on base64 text as it may arrive, not only as our encoder writes it: chunks glued together
+        # (a '=' in the middle: decoding stops there), unpadded and over-padded lines, each FOLLOWING a longer document (the tool
+        # decodes every line into the same string).  A line's fate must be the one it has when it is the only line.
+        def odd64(l):
+            e = base64.b64encode(l)
+            r_ = rng.random()
+            if r_ < 0.3:
+                return e + base64.b64encode(rng.choice([b"AB", b"xyz", b"\xc3"]))      # glued chunks
+            if r_ < 0.5:
+                return e.rstrip(b"=")
+            if r_ < 0.65:
+                return e + b"=" * rng.randrange(1, 4)
+            return e
+        long_docs = ["a\u00e9\u00e9\u00e9 \u20acxyz".encode() * rng.randrange(1, 4), b"plain ascii text " * 3, "\u20acxyz".encode()]
+        seq = []
+        for l in ls[:12]:
+            seq.append(base64.b64encode(rng.choice(long_docs)))
+            seq.append(odd64(l if rng.random() < 0.7 else rng.choice([b"A\xc3", b"AB", b"\xe2\x82", b"ok"])))
+        dseq = text(seq)
+        st, out, err = tool(ctx, "remove_invalid_utf8_base64", [], dseq)
+        ctx.count("remove_invalid_utf8_base64.noncanonical", 1, [dseq])
+        alone = []
+        for e in seq:
+            st1, o1, e1 = tool(ctx, "remove_invalid_utf8_base64", [], e + b"\n")
+            alone.append(o1 if st1 == 0 else None)
+        if any(a_ is None for a_ in alone):
+            if st == 0:
+                k = next(i for i, a_ in enumerate(alone) if a_ is None)
+                pvlib.report_violation(ctx, "utf8b64-seq:" + hx(dseq)[:60], {"argv": ["remove_invalid_utf8_base64"], "stdin_hex": hx(dseq), "line": k, "line_hex": hx(seq[k])},
+                                       summary=f"remove_invalid_utf8_base64 rejects the line {seq[k]!r} when it is alone but accepts the input that contains it")
+        elif st != 0 or out != b"".join(alone):
+            ol = out.split(b"\n")
+            k = next((i for i, (a_, b_) in enumerate(zip(ol, [x[:-1] for x in alone])) if a_ != b_), min(len(ol), len(alone)))
+            pvlib.report_violation(ctx, "utf8b64-seq:" + hx(dseq)[:60], {"argv": ["remove_invalid_utf8_base64"], "stdin_hex": hx(dseq), "status": st, "line": k,
+                                   "line_hex": hx(seq[k]) if k < len(seq) else None, "in_sequence": hx(ol[k]) if k < len(ol) else None, "alone": hx(alone[k][:-1]) if k < len(alone) else None},
+                                   summary=f"remove_invalid_utf8_base64: line {k} ({seq[k][:30] if k < len(seq) else None!r}) is {'kept' if k < len(ol) and ol[k] else 'blanked'} after the lines before it but "
+                                           f"{'kept' if k < len(alone) and alone[k][:-1] else 'blanked'} when it is the only line (status {st})")
         # ---- subtract_lines
         sub = gen_lines(rng, rng.randrange(0, 6))
         sf = os.path.join(ctx.tmp, "sub.txt")
